@@ -248,6 +248,13 @@ theorem oneDigit_breaks :
     twoDigit.WF ∧ scan true 0 0 [] (print false twoDigit) = some "(! [1] <= 1)0".toList ∧
     parseTop "(! [1] <= 1)0".toList = none ∧
     scan false 0 0 [] (print false twoDigit) = some "(! [1] <= 10)".toList := by
-  refine ⟨by decide, by decide, by decide, by decide⟩
+  refine ⟨by decide, by rfl, ?_, by rfl⟩
+  have h0 : ("(! [1] <= 1)0".toList.all (· = ' ')) = false := by rfl
+  have h1 : lex "(! [1] <= 1)0".toList =
+      some [.lpar, .bang, .lbr, .num 1, .rbr, .cmp .le, .num 1, .rpar, .num 0] := by rfl
+  have h2 : parseToks [.lpar, .bang, .lbr, .num 1, .rbr, .cmp .le, .num 1, .rpar, .num 0] = none := by rfl
+  unfold parseTop parse
+  rw [h0, h1]
+  simp [h2]
 
 end PM.C15.PS
